@@ -348,7 +348,20 @@ var c19canon = Register("C19", "C19.canonical", func(a c19CanonArgs) *Violation 
 
 // genCohortRich draws values with large cohorts (few significant digits) as well as arbitrary ones.
 func genCohortRich(t *rapid.T) D {
-	switch ir(t, 0, 9, "richKind") {
+	switch ir(t, 0, 10, "richKind") {
+	case 10:
+		// just below (or on) a power of ten: every table of powers of ten is consulted with such values (digit
+		// counts, "is this one?", "is this minus one?"), and a wrong entry shows only within its error of 10^k
+		k := ir(t, 1, 34, "k")
+		c := new(big.Int).Sub(ref.Pow10(k), bi(int64([]int{0, 1, 1, 2, 3, 1000, 900000}[ir(t, 0, 6, "below")])))
+		if c.Sign() <= 0 {
+			c = new(big.Int).Sub(ref.Pow10(k), ref.One)
+		}
+		e := genExp(t)
+		if ir(t, 0, 2, "unit") == 0 {
+			e = -k // the value 1 (or just below it) written with k digits
+		}
+		return DFin(genSign(t), c, clampExp(e))
 	case 0:
 		return genSpecial(t)
 	case 1:
